@@ -17,6 +17,8 @@ ExprNames(e) ==
     [] e.k = "bin" -> ExprNames(e.l) \cup ExprNames(e.r)
     [] e.k = "chain" -> ExprsNames(e.es, 1)
     [] e.k = "ifexp" -> ExprNames(e.c) \cup ExprNames(e.a) \cup ExprNames(e.b)
+    [] e.k = "select" -> ExprNames(e.e) \cup ExprsNames(e.vals, 1) \cup (IF e.hasdefault = 1 THEN ExprNames(e.default) ELSE {})
+    [] e.k \in {"any", "all"} -> ExprsNames(e.es, 1)
     [] e.k = "dynidx" -> ExprNames(e.e) \cup ExprNames(e.i)
     [] e.k = "call" -> ExprsNames(e.args, 1)
     [] OTHER -> {}
